@@ -41,6 +41,12 @@ def specPipeSeg (st : PipeSpecState) (toks : List String) (seg : List String) (i
   match seg with
   | sp :: kind :: fields =>
     let id := (sp.splitOn "=").getD 1 "?"
+    if kind == "robust" then
+      -- C08: no panic, no stall, allocation in proportion to the bytes received
+      (st, (if impl.head? == some "panic" then [s!"{id} panic-{impl.getD 1 "?"}"] else []) ++
+           (if impl.head? == some "stalled" then [s!"{id} stalled"] else []) ++
+           (if impl.any (fun t => t.startsWith "alloc=big") then [s!"{id} allocation-out-of-proportion-{impl.getLastD "?"}"] else []))
+    else
     match parseOuts impl with
     | none => (st, [s!"{id} unreadable-output-{impl.headD "empty"}"])
     | some outs =>
